@@ -248,6 +248,10 @@ def name_step(line):
                     res(lambda: setattr(cb, loc if occupy_target else own, 1))
                     r = res(lambda: ca.set(ka, 2, overwrite=False))
                     parts.append(",".join([r, res(lambda: Blackboard.get(loc)), res(lambda: Blackboard.get(own))]))
+                try:
+                    parts.append(str(ca.absolute_name(ka)))
+                except Exception as e:  # noqa: B902
+                    parts.append(err_kind(e))
                 return "R " + "|".join(parts)
             finally:
                 Blackboard.clear()
